@@ -165,3 +165,24 @@ func registerSyncPool(vm *VM) {
 		return Iface{}
 	}
 }
+
+func registerMapsPkg(vm *VM) {
+	I := vm.intrinsics
+	clone := func(vm *VM, _ *frame, a []Value) Value {
+		m, _ := a[0].(*Map)
+		if m == nil {
+			return (*Map)(nil)
+		}
+		c := vm.newMap()
+		c.entries = append([]mapEntry{}, m.entries...)
+		return c
+	}
+	I["maps.Clone"] = clone
+	// the runtime-linked helper behind maps.Clone: func clone(m any) any
+	I["maps.clone"] = func(vm *VM, fr *frame, a []Value) Value {
+		if ifc, ok := a[0].(Iface); ok {
+			return Iface{T: ifc.T, V: clone(vm, fr, []Value{ifc.V})}
+		}
+		return clone(vm, fr, a)
+	}
+}
